@@ -245,7 +245,8 @@ def impl_write_new(st, binary):
         if st["ens"] > 1:
             ts.contains_ensemble = True
         ts.ensemble_size = st["ens"]
-        ts.contains_ensemble = st["ens"] > 1
+        # (force_ens: an ensemble file with a single member, e.g. the export of a simulation fed by an ensemble import)
+        ts.contains_ensemble = st["ens"] > 1 or bool(st.get("force_ens"))
         for e in st["entries"]:
             vals = np.array([np.nan if v is None else float(Fraction(v)) for v in e["values"]])
             ts.set(e["var"]["id"], vals, unit=e["unit"], ensemble_member=e["m"])
@@ -298,7 +299,7 @@ def store_term(st):
             e["m"], vidx[e["var"]["id"]], glist(e["values"], gval), UNITS[e["unit"]]))
     return ("{| st_dt := %s; st_times := %s; st_fc := %s; st_fci := %s; st_ens := %s; st_size := %d%%nat; st_entries := %s |}" % (
         goption(st["dt"], gz), gzl(st["axis"]), gz(st["forecast"]), gz(st["axis"].index(st["forecast"])),
-        gbool(st["ens"] > 1), st["ens"], glist(es)))
+        gbool(st["ens"] > 1 or bool(st.get("force_ens"))), st["ens"], glist(es)))
 
 
 def keys_term(nv, size):
@@ -478,6 +479,12 @@ def netcdf_cases(ctx):
             axis = axis[:n] if len(axis) >= n else axis
             n = len(axis)
             fci = rng.randrange(n)
+            if k % 3 == 1:
+                # years away from the reference date, odd seconds: needs all 53 bits of a double
+                # ... also relative to the forecast time the file is written against
+                off = 86400 * 400 * (1 + k % 4) + 7
+                axis = [axis[0]] + [t + off for t in axis[1:]] if k % 2 else [t - off for t in axis[:-1]] + [axis[-1]]
+                fci = 0 if k % 2 else n - 1
             stations = ["st%d" % i + "x" * rng.randint(0, 3) for i in range(nst)]
             pars = ["par%d" % i for i in range(npar)]
             data = {(s, p, m): [None if rng.random() < 0.15 else float(Fraction(gen_value(rng))) for _ in range(n)]
@@ -647,6 +654,8 @@ def run(ctx):
             s["binary"] = rng.random() < 0.5 and s["dt"] is not None
             if rng.random() < 0.3:
                 s["resizes"] = gen_resizes(rng, s["dt"], s["axis"])
+            if s["ens"] == 1 and len(stores) % 3 == 0:
+                s["force_ens"] = True
             stores.append(s)
     terms, meta = [], []
     for spec in files:
